@@ -31,15 +31,22 @@ func Len[K, V any](m *OrderedMap[K, V]) int {
 
 // finds the given key using binary search and returns it's index and wether it exists
 func (m *OrderedMap[K, V]) binarySearch(key K) (int, bool) {
-	low, high := 0, len(m.data)/2
+	n := len(m.data) / 2
+	// find the first key that is not less than key
+	low, high := 0, n
 	for low < high {
 		mid := (low + high) / 2
-		if m.eq(m.data[mid*2].(K), key) {
-			return mid * 2, true
-		} else if m.less(m.data[mid*2].(K), key) {
+		if m.less(m.data[mid*2].(K), key) {
 			low = mid + 1
 		} else {
 			high = mid
+		}
+	}
+	// keys that are equivalent under less are not necessarily equal under eq
+	// (e.g. two different types with the same name), so check the whole run
+	for i := low; i < n && !m.less(key, m.data[i*2].(K)); i++ {
+		if m.eq(m.data[i*2].(K), key) {
+			return i * 2, true
 		}
 	}
 	return low, false
